@@ -158,7 +158,7 @@ def degenerate_case(rng, *, hermitian=True, fmt="dense", pattern=(1, 0, 0), max_
     return dict(sub=sub, nparam=nparam, N=N, H=H, hermitian=hermitian, fully=(None if default_full else [0]), fmt=fmt)
 
 
-NSPECIAL = 12
+NSPECIAL = 16
 
 
 def special_case(rng, k, *, hermitian=True, N=3, max_params=2):
@@ -181,6 +181,20 @@ def special_case(rng, k, *, hermitian=True, N=3, max_params=2):
         return degenerate_case(rng, hermitian=hermitian, fmt="dense", pattern=(0, 1, 0), max_params=max_params, N=N, extra_block=True)
     if k == 7:
         return degenerate_case(rng, hermitian=hermitian, fmt="sympy", pattern=(1, 0, 1, 0), max_params=1, N=N, default_full=True)
+    if k == 12:
+        return coupled_late_case(rng, hermitian=hermitian, fmt="dense", N=max(N, 4))
+    if k == 13:
+        return coupled_late_case(rng, hermitian=hermitian, N=max(N, 4), expr=True)
+    if k in (14, 15):
+        # sympy Matrix presentation (Taylor path) with two parameters and higher-order (mixed) terms
+        for _ in range(50):
+            c = random_case(rng, hermitian=hermitian, fmt="sympy", max_blocks=3, max_size=2, max_params=2, min_params=2, N=N,
+                            offset_prob=0.0, allow_mask=(k == 15))
+            if any(sum(unkey(o)) >= 2 and min(unkey(o)) >= 1 for o in c["H"]):
+                c["present"] = "expr"
+                return c
+        c["present"] = "expr"
+        return c
     if k == 10:
         return offset_case(rng, hermitian=hermitian, fmt="dense", max_params=max_params, N=N, mode=0.5, off=Fr(199999, 2))
     if k == 11:
@@ -305,7 +319,33 @@ def random_case(rng, *, hermitian=True, fmt=None, max_blocks=3, max_size=3, max_
         if sum(o) == 1 or rng.random() < 0.25:
             H[key(o)] = gq.enc(rand_matrix(rng, n, herm=herm_mats, cplx=cplx, dyadic=exactfloat,
                                            density=rng.choice([1.0, 0.7, 0.4])))
-    return dict(sub=sub, nparam=nparam, N=N, H=H, hermitian=hermitian, fully=fully, fmt=fmt)
+    case = dict(sub=sub, nparam=nparam, N=N, H=H, hermitian=hermitian, fully=fully, fmt=fmt)
+    if fmt == "sympy" and rng.random() < 0.3:
+        case["present"] = "expr"   # given as ONE sympy Matrix in the perturbative symbols (Taylor path), see implrun.run
+    return case
+
+
+def coupled_late_case(rng, *, hermitian=True, fmt=None, N=4, expr=False):
+    """Three blocks of which the third is coupled to the others ONLY by a second-order term of the input (the
+    first-order term couples blocks 0 and 1 only): every shortcut that is valid for two coupled blocks is wrong here."""
+    fmt = "sympy" if expr else (fmt or rng.choice(["sympy", "dense", "sparse"]))
+    exactfloat = fmt != "sympy"
+    sizes = [rng.randint(1, 2), 1, 1]
+    sub = [b for b, sz in enumerate(sizes) for _ in range(sz)]
+    E = [G(Fr(v)) for v in ([0] * sizes[0] + [1, 2])]
+    n = len(sub)
+    cplx = rng.random() < 0.5
+    H1 = rand_matrix(rng, n, herm=hermitian, cplx=cplx, dyadic=exactfloat, density=1.0)
+    for i in range(n):
+        for j in range(n):
+            if (sub[i] == 2) != (sub[j] == 2):
+                H1[i][j] = G(Fr(0))
+    H2 = rand_matrix(rng, n, herm=hermitian, cplx=cplx, dyadic=exactfloat, density=1.0)
+    H = {key((0,)): gq.enc(diag_matrix(E)), key((1,)): gq.enc(H1), key((2,)): gq.enc(H2)}
+    case = dict(sub=sub, nparam=1, N=N, H=H, hermitian=hermitian, fully=None, fmt=fmt)
+    if expr:
+        case["present"] = "expr"
+    return case
 
 
 def case_signature(case):
